@@ -469,6 +469,16 @@ func init() {
 		ex.havocRange(st, bt, ref)
 		z := mkInt(sortInt, 0)
 		out := Value{T: types.NewSlice(bt), L: map[string]*Term{".ref": mkIte(ok, ref, mathC(0)), ".off": z, ".len": mkIte(ok, n, z), ".cap": mkIte(ok, n, z)}}
+		// provenance (exportlabel/exportctxlen/exportctxbyte in contracts): which label and context this key material
+		// was exported with; contexts of up to 16 bytes are recorded byte by byte
+		st.assume(mkEq(mkApp("tls!exportlabel", sortStr, ref), a[0].scalar()))
+		ctx := a[1]
+		st.assume(mkEq(mkApp("tls!exportctxlen", sortInt, ref), ctx.L[".len"]))
+		carr := st.regionArr(bt, leavesOf(bt)[0], ctx.L[".ref"])
+		for i := 0; i < 16; i++ {
+			ii := mkInt(sortInt, int64(i))
+			st.assume(mkImplies(mkCmp("lt", ii, ctx.L[".len"]), mkEq(mkApp("tls!exportctxbyte", sortInt, ref, ii), mkConv(mkSelect(carr, idxAdd(ctx.L[".off"], ii)), sortInt))))
+		}
 		return []Value{out, scalarV(ex.vc.errT, err)}
 	})
 	reg("(*crypto/tls.Conn).LocalAddr", "the project's TLS listeners are TCP listeners: returns a non-nil *net.TCPAddr", func(ex *Exec, st *State, c *ast.CallExpr, r *Value, a []Value) []Value {
